@@ -216,6 +216,27 @@ def run(ctx):
                            f.where(c.bb))
         ctx.floor("C12.M3 call sites of the decision helpers" + tag, n3, 40 if cname != "MIN" else 25)
 
+        # ---- M6: the interpreter iterates template values only through the mode-aware helper
+        VM_DIRECT_ITER = {
+            "minijinja::vm::Executor::build_macro": "iterates the argument-name list the code generator emitted",
+            "minijinja::vm::context::Context::known_variables": "debug listing of the context, not an evaluation",
+        }
+        n6 = 0
+        for f in prog.fns.values():
+            if not f.path.startswith("minijinja::vm::"):
+                continue
+            for c in f.calls():
+                if c.name == "minijinja::value::Value::try_iter":
+                    n6 += 1
+                    root = f.root or f.path
+                    ctx.ob("C12.M6.interpreter-iterates-through-the-mode-helper", "%s%s" % (tag, root), root in VM_DIRECT_ITER,
+                           "the interpreter iterates a template value with the plain Value::try_iter (an undefined is an "
+                           "empty sequence in every mode) instead of UndefinedBehavior::try_iter: iterating an undefined "
+                           "here does not fail under Strict / SemiStrict", f.where(c.bb))
+        helper_iter = [c for f in prog.fns.values() if f.path.startswith("minijinja::vm::") for c in f.calls()
+                       if c.name == H + "try_iter"]
+        ctx.floor("C12.M6 mode-aware iteration sites in the interpreter" + tag, len(helper_iter), 2)
+
         # ---- M4
         n4 = 0
         for f in prog.fns.values():
